@@ -201,7 +201,7 @@ func c15Response(c *Ctx) {
 		return
 	}
 	var grid []c15RespPt
-	for _, mm := range [][2]int64{{100, 1000}, {1000, 1000}, {2000, 1000}, {512, 0}, {1, 40}, {1000, 20000}} {
+	for _, mm := range [][2]int64{{100, 1000}, {1000, 1000}, {2000, 1000}, {512, 0}, {1, 40}, {1000, 20000}, {4096, 70000}} {
 		mem, max := mm[0], mm[1]
 		sizes := []int64{0, 1, mem - 1, mem, mem + 1, 5 * mem}
 		if max > 0 {
@@ -213,7 +213,7 @@ func c15Response(c *Ctx) {
 			if sz < 0 {
 				continue
 			}
-			for _, ch := range []int{0, 1, 7, 333, 70000} {
+			for _, ch := range []int{0, 1, 7, 333, 70000, -1} { // -1: the whole body with io.Copy from a plain reader
 				for _, sp := range []string{"", "", "cl0", "grpc", "panic", "hijack", "retry", "badstatus"} {
 					st := 200
 					meth := "GET"
@@ -245,6 +245,11 @@ func c15Response(c *Ctx) {
 		full := bytes.Repeat(marker, int(p.Size)/4+1)[:p.Size]
 		writeBody := func(w io.Writer) {
 			chunk := int64(p.Chunk)
+			if chunk < 0 {
+				// the way http.ServeContent, file servers and relays write (uses the writer's ReadFrom when it has one)
+				_, _ = io.Copy(w, struct{ io.Reader }{bytes.NewReader(full)})
+				return
+			}
 			if chunk == 0 {
 				chunk = p.Size
 			}
